@@ -135,6 +135,11 @@ def run(ctx):
     keys = {}
     try:
         for idx, (kind, s, srcs) in enumerate(sets):
+            if idx % 3 == 1:
+                # non-ASCII identifiers (block, macro, alias, variable names in several scripts) and non-ASCII text:
+                # the generated module has to carry them through the file / zip and the import system
+                srcs = HG.unicodify(srcs, text="ñ€✓ü")
+                ctx.count("unicode-identifiers")
             src_env = jinja2.Environment(loader=jinja2.DictLoader(srcs))
             for n, src in srcs.items():
                 w = kgen(ctx, src_env, n, src)
@@ -203,6 +208,7 @@ def run(ctx):
     fs_stream(ctx, jinja2, ModuleLoader)
     multi_env_stream(ctx, jinja2, ModuleLoader)
     broken_probe(ctx, jinja2, ModuleLoader)
+    non_normal_probe(ctx, jinja2, ModuleLoader)
     same_source_stream(ctx, jinja2, ModuleLoader)
 
 
@@ -354,6 +360,40 @@ def same_source_stream(ctx, jinja2, ModuleLoader):
                 ctx.reject({"sources": srcs, "zip": mode, "differs": {n: [got.get(n), ref[n]] for n in bad}},
                            f"name-dependent environment: precompiled and source renders differ for {bad}: "
                            f"{[(got.get(n), ref[n]) for n in bad][:2]}", None)
+            else:
+                ctx.validated()
+    finally:
+        shutil.rmtree(root, ignore_errors=True)
+
+
+def non_normal_probe(ctx, jinja2, ModuleLoader):
+    """recorded finding C31-non-normalising-source-loader, re-observed on every run: a source loader that does not
+    normalise names (DictLoader) against the module loader, names spelled ./x, /x, .//x"""
+    root = os.path.join(lib.BUILD, f"c31_nn_{os.getpid()}")
+    os.makedirs(root, exist_ok=True)
+    try:
+        for i, (spell, ign) in enumerate([("./x", True), ("/x", True), (".//x", False), ("x", False)]):
+            srcs = {"x": "X", "main": "[{%% include %r%s %%}]" % (spell, " ignore missing" if ign else "")}
+            target = os.path.join(root, f"p{i}")
+
+            def run(loader):
+                try:
+                    return jinja2.Environment(loader=loader).get_template("main").render()
+                except Exception as e:  # noqa
+                    return "X:" + type(e).__name__
+            try:
+                ref = run(jinja2.DictLoader(srcs))
+                jinja2.Environment(loader=jinja2.DictLoader(srcs)).compile_templates(target, zip=None, log_function=lambda x: None,
+                                                                                  ignore_errors=False)
+                got = run(ModuleLoader(target))
+            finally:
+                shutil.rmtree(target, ignore_errors=True)
+            ctx.case()
+            ctx.count("probe-non-normal-name")
+            if got != ref:
+                ctx.reject({"sources": srcs, "zip": None, "loader": "DictLoader", "differs": {"main": [got, ref]}},
+                           f"DictLoader source renders {ref!r}, precompiled renders {got!r} for the name {spell!r}",
+                           "C31:non-normal-name-found-only-precompiled" if spell != "x" else None)
             else:
                 ctx.validated()
     finally:
@@ -520,6 +560,25 @@ def replay(ctx, data):
     jinja2 = lib.use_repo_jinja()
     from jinja2.loaders import ModuleLoader
     case = data.get("case")
+    if data.get("kind") == "failing-input" and case is not None and case.get("loader") == "DictLoader":
+        srcs = case["sources"]
+        target = os.path.join(lib.BUILD, f"c31_replay_{os.getpid()}")
+
+        def run1(loader):
+            try:
+                return jinja2.Environment(loader=loader).get_template("main").render()
+            except Exception as e:  # noqa
+                return "X:" + type(e).__name__
+        try:
+            ref = run1(jinja2.DictLoader(srcs))
+            jinja2.Environment(loader=jinja2.DictLoader(srcs)).compile_templates(target, zip=None, log_function=lambda x: None)
+            got = run1(ModuleLoader(target))
+        finally:
+            shutil.rmtree(target, ignore_errors=True)
+        print("source     :", ref, "\nprecompiled:", got)
+        if got != ref:
+            ctx.reject(case, f"DictLoader source renders {ref!r}, precompiled renders {got!r}", data.get("signature"))
+        return
     if data.get("kind") == "failing-input" and case is not None and "differs" in case:
         mode = case["zip"]
         target = os.path.join(lib.BUILD, f"c31_replay_{os.getpid()}" + (".zip" if mode else ""))
